@@ -115,13 +115,19 @@ func runC17Net(o *opts) (*summary, error) {
 	paths := []string{"udp", "tcp", "bcast"}
 
 	// one well-formed reply for `op` to the request `req` (echoing the request's own argument where the operation looks at it)
+	outField := "" // (when set: the field of the next reply that is filled from outside its domain)
 	valid := func(op string, req []byte) []byte {
 		l := lt.Rsp[op]
 		som := byte(0x17)
 		if op == "GetStatus" && rng.Intn(3) == 0 {
 			som = 0x19
 		}
-		m := l.message(rng, som, req[4:8], "valid", nil)
+		m := l.message(rng, som, req[4:8], "valid", func(f field) string {
+			if outField != "" && f.Name == outField {
+				return "out"
+			}
+			return ""
+		})
 		switch op {
 		case "GetCardByID":
 			copy(m[8:12], req[8:12])
@@ -233,6 +239,38 @@ func runC17Net(o *opts) (*summary, error) {
 	reps := 2
 	if thorough {
 		reps = 30
+	}
+	// a reply with ONE field outside its domain right after a well-formed reply to the same operation: the result is the
+	// interpretation of its own datagram (that field as 'no value', or the call fails) - nothing of the previous reply
+	for rep := 0; rep < reps; rep++ {
+		for _, op := range replyOps() {
+			cands := []string{}
+			for _, f := range lt.Rsp[op].Fields {
+				switch f.Kind {
+				case "date", "datetime", "sysdate", "systime", "hhmm", "hhmmp", "bool":
+					cands = append(cands, f.Name)
+				}
+			}
+			if len(cands) == 0 {
+				continue
+			}
+			path := paths[(rep+len(op))%len(paths)]
+			do(op, path)
+			mu.Lock()
+			outField = cands[rng.Intn(len(cands))]
+			mu.Unlock()
+			k := do(op, path)
+			mu.Lock()
+			of := outField
+			outField = ""
+			if k.deliv == nil {
+				k.deliv = []any{}
+			}
+			mu.Unlock()
+			w.put(M{"op": k.op, "a": k.cs.args, "sent": []any{}, "route": M{"m": "none"}, "ncalls": 1, "delivered": k.deliv,
+				"ret": k.ret, "ret_later": k.ret, "render": render(k.v, k.err), "cfg": cfgP,
+				"kept": M{"path": k.path, "later": []any{"after-valid:" + of}}, "nreq": k.nreq}, "kept-out-"+k.path, fmt.Sprintf("out/%s/%s/%d", k.op, k.path, rep))
+		}
 	}
 	for rep := 0; rep < reps; rep++ {
 		for _, path := range append(append([]string{}, paths...), "discovery") {
